@@ -233,7 +233,7 @@ func runShardAs(b *build, cfg *propCfg, tier string, seed uint64, shard, nshards
 		"VERIF_SHARD="+strconv.Itoa(shard), "VERIF_NSHARDS="+strconv.Itoa(nshards),
 		"VERIF_OUT="+outPath, "VERIF_STATUS="+statusPath, "VERIF_CORPUS="+b.corpus,
 		"VERIF_BUDGET_MS="+strconv.Itoa(budgetMS),
-		"GOMAXPROCS=2", "GORACE=halt_on_error=1 exitcode=66 history_size=2",
+		"GOMAXPROCS=1", "GORACE=halt_on_error=1 exitcode=66 history_size=2",
 		"GOTRACEBACK=all", "TMPDIR="+b.scratch)
 	cmd.Env = append(cmd.Env, extra...)
 	var stderr bytes.Buffer
@@ -749,7 +749,7 @@ func replayOnce(cfg *propCfg, b *build, rf *replayFile) (*violation, string) {
 	cmd.Dir = dir
 	cmd.Env = append(os.Environ(), "VERIF_PROP="+cfg.ID, "VERIF_TIER="+rf.Tier, "VERIF_SEED="+strconv.FormatUint(rf.Seed, 10),
 		"VERIF_REPLAY="+rp, "VERIF_OUT="+outPath, "VERIF_CORPUS="+b.corpus, "VERIF_STATUS="+filepath.Join(dir, "status.json"),
-		"GOMAXPROCS=2", "GORACE=halt_on_error=1 exitcode=66 history_size=2", "GOTRACEBACK=all", "TMPDIR="+dir)
+		"GOMAXPROCS=1", "GORACE=halt_on_error=1 exitcode=66 history_size=2", "GOTRACEBACK=all", "TMPDIR="+dir)
 	cmd.Env = append(cmd.Env, rf.Env...)
 	var buf bytes.Buffer
 	cmd.Stdout, cmd.Stderr = &buf, &buf
